@@ -199,7 +199,8 @@ theorem setAdjacency_entsOf (net : Net) (N : Nat) (hN : 2 ≤ N) (c : Nat → Na
       nLinks := if net.directed then ((pairs N N).filter fun p => c p.1 p.2 && v p.1 p.2 != 0).length
                 else ((pairs N N).filter fun p => c p.1 p.2 && v p.1 p.2 != 0).length / 2
       graph := graphEdges net.directed N ((pairs N N).filter fun p => c p.1 p.2 && v p.1 p.2 != 0)
-      eattr := none } := by
+      eattr := none
+      gvw := none } := by
   unfold setAdjacency
   have h0 : ¬ (N == 0 || N == 1) = true := by
     simp; omega
@@ -228,7 +229,8 @@ theorem setAdjacency_dense (net : Net) (N : Nat) (hN : 2 ≤ N) (a : Nat → Nat
       density := linkDensity (cells N a).length N
       nLinks := if net.directed then (cells N a).length else (cells N a).length / 2
       graph := graphEdges net.directed N (cells N a)
-      eattr := none } := by
+      eattr := none
+      gvw := none } := by
   rw [ofDenseMat_eq, setAdjacency_entsOf net N hN]
   have hc : ((pairs N N).filter fun p => (ind a p.1 p.2 != 0) && (ind a p.1 p.2 != 0)) = cells N a := by
     unfold cells
@@ -330,7 +332,8 @@ theorem setEdgeList_eq (net : Net) (E : List (Nat × Nat)) (N : Nat) (hN : 2 ≤
       nLinks := if net.directed then (cells N (rel net.directed E)).length
                 else (cells N (rel net.directed E)).length / 2
       graph := graphEdges net.directed N (cells N (rel net.directed E))
-      eattr := none } := by
+      eattr := none
+      gvw := none } := by
   unfold setEdgeList
   simp only
   have hrange : (List.any (if net.directed = true then E else E ++ E.map swap)
@@ -404,7 +407,8 @@ theorem bind_ok {α β : Type} {x : Except Err α} {f : α → Except Err β} {b
   | ok a => exact ⟨a, rfl, h⟩
 
 theorem fresh_update (net : Net) (g : List (Nat × Nat)) (ea : Option (List Rat))
-    (h : Fresh net) : Fresh { net with graph := g, eattr := ea } := h
+    (vw : Option (List Rat)) (h : Fresh net) :
+    Fresh { net with graph := g, eattr := ea, gvw := vw } := h
 
 theorem assignWeights_fresh (net net' : Net) (w : Option (Option (List Rat)))
     (hf : Fresh net) (h : assignWeights net w = .ok net') : Fresh net' := by
@@ -569,7 +573,8 @@ theorem setAdjacency_cooOnes (net : Net) (N : Nat) (hN : 2 ≤ N) (E : List (Nat
       nLinks := if net.directed then (cells N (memRel E)).length
                 else (cells N (memRel E)).length / 2
       graph := graphEdges net.directed N (cells N (memRel E))
-      eattr := none } := by
+      eattr := none
+      gvw := none } := by
   have hlen : (cells N (memRel E)).length = E.length := (cells_memRel_perm N E hnd hr).length_eq
   have hg : graphEdges net.directed N E = graphEdges net.directed N (cells N (memRel E)) :=
     graphEdges_congr_mem _ _ _ _ fun p => ((cells_memRel_perm N E hnd hr).mem_iff).symm
@@ -622,7 +627,7 @@ def weightsOf (N : Nat) (w : Option (List Rat)) : List Rat :=
 theorem fromIGraph_simple (g : IGraph) (hN : 2 ≤ g.n) (hs : SimpleEdges g.directed g.edges)
     (hr : ∀ p ∈ g.edges, p.1 < g.n ∧ p.2 < g.n) (hw : ∀ w, g.vw = some w → w.length = g.n) :
     fromIGraph g = .ok { ofGraph g.directed g.n (rel g.directed g.edges) (weightsOf g.n g.vw) none
-      with graph := g.edges, eattr := g.ea } := by
+      with graph := g.edges, eattr := g.ea, gvw := g.vw } := by
   unfold fromIGraph init construct
   have hr' : ∀ p ∈ (if g.directed = true then g.edges else g.edges ++ g.edges.map swap),
       p.1 < g.n ∧ p.2 < g.n := by
